@@ -97,8 +97,12 @@ def run(ctx):
         for i in range(parts):
             jobs.append(("c02", ["--mode", "random", "--arch", a, "--n", per_arch // parts], "%s-%d.ndjson" % (a, i),
                          {"extra_env": {"VERIF_SEED": str(ctx.seed * 1000 + i)}}))
+    import time
+    t0 = time.time()
     paths = ctx.record_many(jobs, parallel=6 if q else 8)
+    t1 = time.time()
     stats = validate(ctx, paths, 2 if q else 2, parallel=12 if q else 16)
+    core.log("[C02] recorded %d traces in %.1fs, validated in %.1fs" % (len(paths), t1 - t0, time.time() - t1))
     summarize(ctx, stats, paths)
     ctx.extra["generator"] = {
         "instances_per_arch": per_arch,
